@@ -62,6 +62,10 @@ fn main() {
         eprintln!("usage: bpp_harness <scenario> [quick|thorough] [seed]");
         std::process::exit(2);
     }
+    if args[1] == "C11-child" {
+        scen_gens::c11_child(args.get(2).map(|s| s.as_str()).unwrap_or("1"), &[]);
+        return;
+    }
     if args[1] == "C11-table" {
         // compressed encodings of every generator of the largest parameter set, sorted: input of the generated Lean table
         let pr = rrun::params(64, 32, 6);
